@@ -96,7 +96,7 @@ def _old_len(x):
 def eval_expr(expr: str, env: Dict[str, Any]):
     names = sorted(env)
     code = xform.compile_contract_expr(expr, names)
-    g = {"__vfw": vrt, "__builtins__": __builtins__}
+    g = {"_vfw": vrt, "__builtins__": __builtins__}
     g.update(vrt.REBOUND_BUILTINS)
     g.update(SPEC_NAMES)
     f = eval(code, g)
@@ -130,7 +130,8 @@ def make_stub(c: Contract, exc_ns: Dict[str, Any], owner: str = "", bound_self=N
         for gname, gexpr in c.ghost.items():
             env[gname] = eval_expr(gexpr, dict(env, **c.spec))
         full = dict(env, **c.spec)
-        ctx.check(f"{owner}.call[{c.qualname}].requires", eval_expr(c.requires, full),
+        req = eval_expr(c.requires, full)
+        ctx.check(f"{owner}.call[{c.qualname}].requires", req,
                   f"precondition of {c.key} at its call site in {owner}")
         for ename, cond in c.raises.items():
             f = fml(eval_expr(cond, full))
@@ -150,7 +151,7 @@ def make_stub(c: Contract, exc_ns: Dict[str, Any], owner: str = "", bound_self=N
             return _pure_result(c, [env[n] for n in pnames])
         res = vtypes.mk(c.result, f"ret.{c.qualname}") if c.result != "Any" else None
         full = dict(env, result=res, **c.spec)
-        ctx.assume(vrt.Implies(eval_expr(c.requires, dict(env, **c.spec)), eval_expr(c.ensures, full)))
+        ctx.assume(vrt.Implies(req, eval_expr(c.ensures, full)))
         return res
     stub.__name__ = "stub_" + c.qualname.replace(".", "_")
     stub.__vfw_contract__ = c
@@ -241,7 +242,7 @@ class Shadow:
         ast.fix_missing_locations(tree)
         ns = dict(self.real.__dict__)
         ns["__name__"] = self.modname
-        ns["__vfw"] = vrt
+        ns["_vfw"] = vrt
         ns.update(vrt.REBOUND_BUILTINS)
         for k, v in SPEC_NAMES.items():
             ns.setdefault(k, v)
